@@ -286,6 +286,11 @@ pub struct ScriptOpts {
     pub max_len: usize,
     /// only timestamps >= 0 (the interval join starts from `last_seen = 0`)
     pub non_negative: bool,
+    /// weights of the replica styles: normal / no watermarks / no data / ends early
+    pub styles: [u32; 4],
+    /// minimum script length of a normal replica and weight of watermarks among its operations
+    pub min_len: usize,
+    pub wm_weight: u32,
 }
 
 /// Generate the scripts of one source; ids start at `*next_id` and are unique across sources.
@@ -303,7 +308,7 @@ pub fn gen_source(ch: &mut Chooser, o: &ScriptOpts, next_id: &mut i64) -> TsSour
     let spread = [2i64, 6, 20][ch.below(3)];
     let mut scripts = Vec::new();
     for _r in 0..replicas {
-        let style = ch.weighted(&[6, 1, 1, 1]); // normal / no watermarks / empty / ends early
+        let style = ch.weighted(&o.styles); // normal / no watermarks / empty / ends early
         let mut its = Vec::new();
         for _it in 0..iterations {
             let mut v = Vec::new();
@@ -311,11 +316,11 @@ pub fn gen_source(ch: &mut Chooser, o: &ScriptOpts, next_id: &mut i64) -> TsSour
                 its.push(v);
                 continue;
             }
-            let len = if style == 3 { ch.below(3) } else { ch.below(o.max_len) };
+            let len = if style == 3 { ch.below(3) } else { o.min_len + ch.below(o.max_len - o.min_len.min(o.max_len - 1)) };
             let mut wm: Option<i64> = None;
             let mut max_seen = ch.range(0, 10);
             for _ in 0..len {
-                match ch.weighted(&[8, if style == 1 { 0 } else { 3 }, 1]) {
+                match ch.weighted(&[8, if style == 1 || style == 3 { 0 } else { o.wm_weight }, 1]) {
                     0 => {
                         let lo = wm.map_or(max_seen - spread, |w| w + 1);
                         let lo = if o.non_negative { lo.max(0) } else { lo };
@@ -351,7 +356,7 @@ pub struct TsProfile {
 
 pub fn gen_job(ch: &mut Chooser, p: &TsProfile) -> TsJob {
     let mut next_id = 0;
-    let o = ScriptOpts { max_replicas: 5, max_iterations: 1, max_len: 40, non_negative: false };
+    let o = ScriptOpts { max_replicas: 5, max_iterations: 1, max_len: 40, non_negative: false, styles: [6, 1, 1, 1], min_len: 0, wm_weight: 3 };
     let source = gen_source(ch, &o, &mut next_id);
     let mut stages = Vec::new();
     let n = 1 + ch.below(6);
@@ -394,7 +399,7 @@ pub fn gen_job(ch: &mut Chooser, p: &TsProfile) -> TsJob {
                 TsStage::EventWindow { k: [1, 2, 3][ch.below(3)], size, slide: ch.range(1, size) }
             }
             12 => {
-                let mut other = gen_source(ch, &ScriptOpts { max_replicas: 4, max_iterations: 1, max_len: 25, non_negative: false }, &mut next_id);
+                let mut other = gen_source(ch, &ScriptOpts { max_replicas: 4, max_iterations: 1, max_len: 25, non_negative: false, styles: [6, 1, 1, 1], min_len: 0, wm_weight: 3 }, &mut next_id);
                 // both inputs of a merge run the same number of iterations
                 other.iterations = source.iterations;
                 for s in other.scripts.iter_mut() {
